@@ -4,7 +4,7 @@ EXTENDS Subscriptions
 Terminating == AllRest /\ UNCHANGED vars
 \* partial-order reduction: an action that touches nothing but its actor's own control state (a marker event)
 \* commutes with every action of every other actor and is invisible to the properties, so it is taken first
-LocalPCs == {"c.added", "c.ret", "un.call", "u.spawned", "u.locked", "u.fin", "g.spawned", "g.fin", "sh.spawned", "sh.fin"}
+LocalPCs == {"h.spawned", "h.fail", "c.added", "c.ret", "un.call", "u.spawned", "u.locked", "u.fin", "g.spawned", "g.fin", "sh.spawned", "sh.fin"}
 IsLocal(a) == ac[a].pc \in LocalPCs \/ (ac[a].pc = "td" /\ ac[a].cq # {})
 PorNext == IF \E a \in Actors : IsLocal(a)
            THEN Micro(CHOOSE a \in Actors : IsLocal(a))
@@ -25,6 +25,16 @@ View == <<cfg, g, o, ac>>
 BlockedOK == \A a \in Actors : (~AtRest(a)) => (Blocked(a) <=> ~ENABLED Micro(a))
 NoFetch(c) == c.fetch = [s \in Subs |-> FALSE]
 CfgAll(c) == TRUE
+CfgSync(c) == c.sync /\ c.key = [s \in Subs |-> 1] /\ c.filt = [s \in Subs |-> "all"] /\ c.conn = [s \in Subs |-> s]
+CfgHooks(c) == c.hooks /\ c.key = [s \in Subs |-> 1] /\ c.filt = [s \in Subs |-> "all"] /\ c.conn = [s \in Subs |-> s] /\ c.fetch = AllFalse /\ c.rerr = AllFalse
+CfgErr(c) == c.key = [s \in Subs |-> 1] /\ c.conn = [s \in Subs |-> s] /\ c.fetch = AllFalse /\ c.filt[1] = "all" /\ c.rerr[1] = FALSE
+             /\ (c.filt[2] = "err" \/ c.rerr[2]) /\ c.filt[2] # "odd"
+FeatNone == {}
+FeatFetch == {"fetch"}
+FeatErr == {"ferr", "rerr"}
+FeatHooks == {"hooks"}
+FeatAll == {"fetch", "ferr", "rerr", "hooks", "sync"}
+FeatSync == {"sync"}
 \* both subscribers of one trigger resolve a nested fetch per event
 CfgFetch(c) == c.key = [s \in Subs |-> 1] /\ c.filt = [s \in Subs |-> "all"] /\ c.conn = [s \in Subs |-> s] /\ c.fetch = [s \in Subs |-> TRUE]
 \* both subscribers on one trigger, own connections / different triggers on one connection
